@@ -255,88 +255,128 @@ async fn publish(book: &AddressBook, key: &SigningKey, port: Option<u16>) -> Pub
     }
 }
 
-fn part_book(rep: &mut Report, n: usize, alphabet: &[u64]) {
-    let rt = runtime();
-    let book = rt.block_on(async { AddressBook::builder().spawn().await.expect("address book") });
-    let mut case = 0u64;
-    for len in 1..=n {
-        for rs in readings(alphabet, len) {
-            // address pattern: ports change on every publication; optionally one publication
-            // without any address (node not reachable) at position `empty_at`.
-            for empty_at in std::iter::once(None).chain((0..=len).map(Some)) {
-                case += 1;
-                rep.eval();
-                rep.state(&("book", &rs, empty_at));
-                // fresh node id per case inside the shared book: entries are keyed by node id
-                let k = key_n(case);
-                let vk = k.verifying_key();
-                let mut remote = NodeInfo::new(vk);
-                let mut prev: Option<AuthenticatedTransportInfo> = None;
-                let mut nontrivial = false;
-                for (i, r) in rs.iter().enumerate() {
-                    rep.transition();
-                    set_clock(*r);
-                    let port = if empty_at == Some(i) { None } else { Some(3000 + i as u16) };
-                    let prev_t = prev.as_ref().map(t_of);
-                    if prev_t.is_some_and(|t| *r <= t) {
-                        nontrivial = true;
-                    }
-                    let out = rt.block_on(publish(&book, &k, port));
-                    let replay = json!({"part": "book", "readings": rs, "empty_at": empty_at});
-                    let class = prev_t.map(|t| clock_class(*r, t)).unwrap_or("no-previous");
-                    match out {
-                        Published::Inserted(info, true) => {
-                            let stored = rt
-                                .block_on(book.node_info(vk))
-                                .ok()
-                                .flatten()
-                                .and_then(|i| i.transports);
-                            if stored != Some(TransportInfo::from(info.clone())) {
-                                rep.violation(
-                                    format!("self-published-not-stored/{class}"),
-                                    format!("address book, clock readings {rs:?}, publication #{i}: insert_transport_info returned true but the book holds {:?}", stored.map(|s| s.timestamp().to_string())),
-                                    replay.clone(),
-                                );
-                            }
-                            if let Some((key, what)) = check_accept("remote entry", &mut remote, &info, *r, prev_t) {
-                                rep.violation(key, format!("address book, clock readings {rs:?}, publication #{i}: {what}"), replay);
-                            }
-                            prev = Some(info);
-                        }
-                        Published::Inserted(info, false) => {
-                            rep.violation(
-                                format!("self-published-not-newer/{class}"),
-                                format!(
-                                    "address book, clock readings {rs:?}, publication #{i}: own record {} (wall clock {r}) was not accepted as newer than the stored record {}",
-                                    info.timestamp(),
-                                    prev.as_ref().map(|p| p.timestamp().to_string()).unwrap_or_else(|| "none".into())
-                                ),
-                                replay,
-                            );
-                            break;
-                        }
-                        Published::Skipped => {
-                            rep.machinery_error(format!("book part: publication #{i} of {rs:?} skipped although the addresses changed"));
-                            break;
-                        }
-                        Published::Failed(e) => {
-                            rep.violation(
-                                format!("self-published-rejected/{class}"),
-                                format!("address book, clock readings {rs:?}, publication #{i}: {e}"),
-                                replay,
-                            );
-                            break;
-                        }
-                    }
+/// Outcome of one book case, produced on a worker thread and folded into the report in case order.
+struct BookCase {
+    steps: u64,
+    nontrivial: bool,
+    violations: Vec<(String, String, explorer::Value)>,
+    machinery: Option<String>,
+}
+
+fn run_book_case(rt: &tokio::runtime::Runtime, book: &AddressBook, case: u64, rs: &[u64], empty_at: Option<usize>) -> BookCase {
+    let mut out = BookCase { steps: 0, nontrivial: false, violations: vec![], machinery: None };
+    // fresh node id per case inside the shared book: entries are keyed by node id
+    let k = key_n(case);
+    let vk = k.verifying_key();
+    let mut remote = NodeInfo::new(vk);
+    let mut prev: Option<AuthenticatedTransportInfo> = None;
+    for (i, r) in rs.iter().enumerate() {
+        out.steps += 1;
+        set_clock(*r);
+        let port = if empty_at == Some(i) { None } else { Some(3000 + i as u16) };
+        let prev_t = prev.as_ref().map(t_of);
+        if prev_t.is_some_and(|t| *r <= t) {
+            out.nontrivial = true;
+        }
+        let published = rt.block_on(publish(book, &k, port));
+        let replay = json!({"part": "book", "readings": rs, "empty_at": empty_at});
+        let class = prev_t.map(|t| clock_class(*r, t)).unwrap_or("no-previous");
+        match published {
+            Published::Inserted(info, true) => {
+                let stored = rt.block_on(book.node_info(vk)).ok().flatten().and_then(|i| i.transports);
+                if stored != Some(TransportInfo::from(info.clone())) {
+                    out.violations.push((
+                        format!("self-published-not-stored/{class}"),
+                        format!("address book, clock readings {rs:?}, publication #{i}: insert_transport_info returned true but the book holds {:?}", stored.map(|s| s.timestamp().to_string())),
+                        replay.clone(),
+                    ));
                 }
-                if nontrivial {
-                    rep.nontrivial(&("book", &rs, empty_at));
+                if let Some((key, what)) = check_accept("remote entry", &mut remote, &info, *r, prev_t) {
+                    out.violations.push((key, format!("address book, clock readings {rs:?}, publication #{i}: {what}"), replay));
                 }
+                prev = Some(info);
+            }
+            Published::Inserted(info, false) => {
+                out.violations.push((
+                    format!("self-published-not-newer/{class}"),
+                    format!(
+                        "address book, clock readings {rs:?}, publication #{i}: own record {} (wall clock {r}) was not accepted as newer than the stored record {}",
+                        info.timestamp(),
+                        prev.as_ref().map(|p| p.timestamp().to_string()).unwrap_or_else(|| "none".into())
+                    ),
+                    replay,
+                ));
+                break;
+            }
+            Published::Skipped => {
+                out.machinery = Some(format!("book part: publication #{i} of {rs:?} skipped although the addresses changed"));
+                break;
+            }
+            Published::Failed(e) => {
+                out.violations.push((
+                    format!("self-published-rejected/{class}"),
+                    format!("address book, clock readings {rs:?}, publication #{i}: {e}"),
+                    replay,
+                ));
+                break;
             }
         }
     }
-    rep.set("book_cases", json!(case));
-    drop(book);
+    out
+}
+
+fn part_book(rep: &mut Report, n: usize, alphabet: &[u64]) {
+    // cases: clock-reading sequence x address pattern (ports change on every publication;
+    // optionally one publication without any address - node not reachable - at `empty_at`)
+    let mut cases: Vec<(Vec<u64>, Option<usize>)> = vec![];
+    for len in 1..=n {
+        for rs in readings(alphabet, len) {
+            for empty_at in std::iter::once(None).chain((0..=len).map(Some)) {
+                cases.push((rs.clone(), empty_at));
+            }
+        }
+    }
+    let threads = rep.args.threads.clamp(1, 8);
+    let results: Vec<Vec<(usize, BookCase)>> = std::thread::scope(|s| {
+        let hs: Vec<_> = (0..threads)
+            .map(|t| {
+                let cases = &cases;
+                s.spawn(move || {
+                    // one book (actor + in-memory SQLite) per worker; MockClock is thread-local
+                    let rt = runtime();
+                    let book = rt.block_on(async { AddressBook::builder().spawn().await.expect("address book") });
+                    let mut out = vec![];
+                    for (idx, (rs, empty_at)) in cases.iter().enumerate() {
+                        if idx % threads == t {
+                            out.push((idx, run_book_case(&rt, &book, idx as u64 + 1, rs, *empty_at)));
+                        }
+                    }
+                    drop(book);
+                    out
+                })
+            })
+            .collect();
+        hs.into_iter().map(|h| h.join().expect("worker")).collect()
+    });
+    let mut all: Vec<(usize, BookCase)> = results.into_iter().flatten().collect();
+    all.sort_by_key(|(i, _)| *i);
+    for (idx, c) in all {
+        let (rs, empty_at) = &cases[idx];
+        rep.eval();
+        rep.transitions += c.steps;
+        rep.state(&("book", rs, empty_at));
+        if c.nontrivial {
+            rep.nontrivial(&("book", rs, empty_at));
+        }
+        for (k, w, r) in c.violations {
+            rep.violation(k, w, r);
+        }
+        if let Some(m) = c.machinery {
+            rep.machinery_error(m);
+        }
+    }
+    rep.set("book_cases", json!(cases.len()));
+    rep.set("book_workers", json!(threads));
 }
 
 pub fn run(mut rep: Report) -> i32 {
@@ -357,7 +397,7 @@ pub fn run(mut rep: Report) -> i32 {
     rep.part(json!({"part": "book", "cases": rep.evaluations - e2, "max_publications": bn + 1, "clock_alphabet": balphabet}));
     rep.assume("logical = u64::MAX excluded (no greater logical value within one tick), as in the p2panda-core half of C18");
     rep.assume("clock readings are microsecond values standing for earlier / equal / later; increment only compares the reading with the previous time");
-    rep.assume("book part: one AddressBook (in-memory SQLite) is shared by all cases, each case uses a fresh node id, so entries never interact");
+    rep.assume("book part: one AddressBook (in-memory SQLite) per worker thread is shared by that worker's cases, each case uses a fresh node id, so entries never interact");
     rep.assume("publish() is re-enacted call by call in the harness (it lives in a tokio task spawned by iroh's AddressLookup::publish and needs an iroh endpoint); the semaphore that serialises concurrent publications is not modelled: publications are sequential here");
     rep.finish()
 }
